@@ -43,7 +43,20 @@ fn case(rng: &mut Rng, out: &mut CaseOut) {
     let a = gen::originals(rng, k, size);
     let b = gen::originals(rng, k, size);
     let desc = format!("k={k} r={r} rate={} size={size} api={}", rate.name(), api.name());
-    let enc = |d: &[Vec<u8>]| codec::encode_fresh(api, k, r, size, d);
+    // half of the cases run all encodes of the case on ONE encoder object
+    // (consecutive rounds, implicit reset), the other half on fresh encoders:
+    // parity updates in practice come from a long-lived encoder
+    let shared = rng.chance(1, 2);
+    let mut shared_enc = if shared { codec::make_enc(api, k, r, size, None).ok() } else { None };
+    let mut enc = |d: &[Vec<u8>]| match shared_enc.as_mut() {
+        Some(e) => {
+            for s in d {
+                e.add(s)?;
+            }
+            e.encode_obs(&[]).map(|o| o.iter)
+        }
+        None => codec::encode_fresh(api, k, r, size, d),
+    };
     let (ea, eb, eab) = match (enc(&a), enc(&b), enc(&xor(&a, &b))) {
         (Ok(x), Ok(y), Ok(z)) => (x, y, z),
         _ => {
@@ -77,6 +90,7 @@ fn case(rng: &mut Rng, out: &mut CaseOut) {
         Ok(eca) if eca == scale(&ea, c) => {}
         _ => out.violate("C13:not-homogeneous", format!("{desc}: enc(c*a) != c*enc(a) for c={c:#06x}")),
     }
+    out.tag(if shared { "one-encoder-object" } else { "fresh-encoders" });
     out.tag(format!("rate:{}", rate.name()));
     out.tag(format!("class:{}", class.name()));
     out.tag(format!("api:{}", api.name()));
